@@ -159,6 +159,13 @@ static void rec_counter(uint64_t seed, long nwalk, long sweep_to) {
   { cds::bitop::bit_reverse_counter<size_t> c; fprintf(out, "{\"f\":\"reset\"}\n");     // linear sweep up, then down
     for (long i = 0; i < sweep_to; ++i) { size_t r = c.inc(); fprintf(out, "{\"f\":\"inc\",\"r\":%zu,\"cnt\":%zu,\"rev\":%zu,\"hb\":%d}\n", r, c.value(), c.reversed_value(), c.high_bit()); }
     for (long i = 0; i < sweep_to; ++i) { size_t r = c.dec(); fprintf(out, "{\"f\":\"dec\",\"r\":%zu,\"cnt\":%zu,\"rev\":%zu,\"hb\":%d}\n", r, c.value(), c.reversed_value(), c.high_bit()); } }
+  // Dyck probes (dec,inc,inc,dec,dec,inc) around every count up to 2^20 with a long carry / borrow chain (k*256 - 1, k*256, k*256 + 1);
+  // the increments in between are not recorded one by one: a "jump" record carries the state reached, validated in closed form
+  { cds::bitop::bit_reverse_counter<size_t> c; fprintf(out, "{\"f\":\"reset\"}\n");
+    auto rec = [&](const char* f, size_t r) { fprintf(out, "{\"f\":\"%s\",\"r\":%zu,\"cnt\":%zu,\"rev\":%zu,\"hb\":%d}\n", f, r, c.value(), c.reversed_value(), c.high_bit()); };
+    for (long k = 1; k <= 4096; ++k) for (long d = -1; d <= 1; ++d) { long t = k * 256 + d; if (t > 1048576) break;
+      while ((long)c.value() < t) c.inc(); rec("jump", 0);
+      rec("dec", c.dec()); rec("inc", c.inc()); rec("inc", c.inc()); rec("dec", c.dec()); rec("dec", c.dec()); rec("inc", c.inc()); } }
   for (int n = 1; n <= 70; ++n) { cds::bitop::bit_reverse_counter<size_t> c; std::string sl = "["; for (int i = 1; i <= n; ++i) { if (i > 1) sl += ","; sl += std::to_string(c.inc()); }
     fprintf(out, "{\"f\":\"prefix\",\"n\":%d,\"slots\":%s]}\n", n, sl.c_str()); }
   std::mt19937_64 r(seed);
